@@ -57,6 +57,21 @@ Proof.
     match goal with |- context [in_i64 ?z] => destruct (in_i64 z) end; intros H; inversion H; reflexivity.
 Qed.
 
+Theorem fold_agrees_on_literals_all op bop x y r :
+  (op = BoAdd /\ bop = BAdd) \/ (op = BoSub /\ bop = BSub) \/ (op = BoMul /\ bop = BMul) \/ (op = BoDiv /\ bop = BDiv) \/ (op = BoRem /\ bop = BRem) ->
+  eval_binary_arith op (CInt x) (CInt y) = inl (CInt r) -> arith bop (VL x) (VL y) = Def (VL r).
+Proof.
+  intros [[-> ->]|[[-> ->]|[[-> ->]|[[-> ->]|[-> ->]]]]]; cbn [eval_binary_arith arith]; unfold checked.
+  1-3: match goal with |- context [in_i64 ?z] => destruct (in_i64 z) end; intros H; inversion H; reflexivity.
+  all: destruct (y =? 0) eqn:Ey; cbn [orb]; [discriminate|];
+       destruct ((x =? I64_MIN) && (y =? -1)); [discriminate|];
+       match goal with |- context [in_i64 ?z] => destruct (in_i64 z) end; intros H; inversion H; reflexivity.
+Qed.
+Theorem fold_bitwise_agrees_on_literals op bop x y r :
+  (op = BoAnd /\ bop = BAnd) \/ (op = BoOr /\ bop = BOr) \/ (op = BoXor /\ bop = BXor) ->
+  eval_binary_bitwise op (CInt x) (CInt y) = inl (CInt r) -> arith bop (VL x) (VL y) = Def (VL r).
+Proof. intros [[-> ->]|[[-> ->]|[-> ->]]]; cbn [eval_binary_bitwise arith]; intros H; inversion H; reflexivity. Qed.
+
 (* a null dereference and a read of a never-assigned variable are undefined *)
 Theorem null_deref_undefined names this st e o p st1 : eval names this st e o = Def (VP None, st1) -> eval names this st e (EMember o p) = Undef.
 Proof. intros H. cbn [eval]. rewrite H. reflexivity. Qed.
